@@ -97,7 +97,7 @@ def run(ctx):
         for lead in ("", " ", "  ", "   "):
             cases.append((lead + "'" + "\\x41" * n + "'", "A" * n, "very long literal"))
     # random ASCII strings with mixed spellings
-    for _ in range(300 if quick else 6000):
+    for _ in range(300 if quick else 40000):
         q = rng.choice("'\"")
         n = rng.choice([1, 2, 3, 5, 8])
         bs, src = [], []
